@@ -93,6 +93,7 @@ type c14Xfer struct {
 	dead    bool   // the receiver reset it / the sender gave up
 	endSent bool
 	extra   int // frames the sender still pushes after the offence (in flight)
+	declared bool // client role: the response declares its content-length
 }
 
 // nextFrame returns the next DATA frame of the transfer (nil when done) and its flow-controlled length.
@@ -474,7 +475,14 @@ func c14Client(r *vf.Run, t *testing.T, id string, rng *rand.Rand) {
 		goAwayAt = rng.Intn(12)
 		k = 2 + rng.Intn(3)
 	}
-	replay := map[string]any{"role": "client", "downloads": k, "cancelled": nCancel, "empty_padded_frames": emptyPadded, "amplify": amplify, "cancel_churn_rounds": churn, "goaway_at_round": goAwayAt}
+	// long: one connection carries far more than its windows hold, in responses each larger than a stream window (1 MiB),
+	// with and without a declared length: a receiver whose credit falls short by a little per round trip runs dry only
+	// after many of them (20-26 MB here)
+	long := !amplify && churn == 0 && goAwayAt < 0 && rng.Intn(12) == 0
+	if long {
+		k, nCancel, emptyPadded = 8+rng.Intn(3), 0, false
+	}
+	replay := map[string]any{"role": "client", "downloads": k, "cancelled": nCancel, "empty_padded_frames": emptyPadded, "amplify": amplify, "cancel_churn_rounds": churn, "goaway_at_round": goAwayAt, "long_history": long}
 	failed := false
 	fail := func(rule, detail string) {
 		if !failed {
@@ -568,6 +576,10 @@ func c14Client(r *vf.Run, t *testing.T, id string, rng *rand.Rand) {
 			if goAwayAt >= 0 {
 				size = 400000 + rng.Intn(500000)
 			}
+			if long {
+				size = 2400000 + rng.Intn(400000)
+			}
+			x.declared = rng.Intn(2) == 0
 			x.body = make([]byte, size)
 			rng.Read(x.body)
 			x.chunks = []int{16384, 1 + rng.Intn(16000)}
@@ -595,7 +607,11 @@ func c14Client(r *vf.Run, t *testing.T, id string, rng *rand.Rand) {
 		// response headers for everything
 		var out []byte
 		for _, x := range xs {
-			out = append(out, rt.Concat(rt.HeaderFrames(x.stream, e.P.EncodeBlock([]F{{Name: ":status", Value: "200"}, {Name: "x-rtag", Value: x.tag}}, nil), nil, -1, nil, false))...)
+			hf := []F{{Name: ":status", Value: "200"}, {Name: "x-rtag", Value: x.tag}}
+			if x.declared {
+				hf = append(hf, F{Name: "content-length", Value: fmt.Sprint(len(x.body))})
+			}
+			out = append(out, rt.Concat(rt.HeaderFrames(x.stream, e.P.EncodeBlock(hf, nil), nil, -1, nil, false))...)
 		}
 		e.P.Write(out)
 		rt.Wait()
@@ -656,8 +672,8 @@ func c14Client(r *vf.Run, t *testing.T, id string, rng *rand.Rand) {
 				}
 				for b := 0; b < 1+rng.Intn(4); b++ {
 					fr, n := x.nextFrameMax(led.avail(x.stream))
-					if fr == nil || led.avail(x.stream) < n {
-						break
+					if fr == nil || led.avail(x.stream) < n || (n == 0 && fr[4]&wire.FEndStream == 0 && led.avail(x.stream) < 1) {
+						break // nothing fits (an empty frame that ends nothing is no progress when the window is shut)
 					}
 					led.spend(x.stream, n)
 					x.commit(n, fr)
